@@ -457,7 +457,11 @@ Xml Xml::decode(const String& x)
 		if (state == ERR || elems.length() > ASL_XML_MAX_DEPTH + 1)
 			return Xml();
 	}
-	return (elems.top().numChildren() == 1)? elems.top().child(0) : Xml();
+	if (elems.top().numChildren() != 1)
+		return Xml();
+	Xml root = elems.top().child(0);
+	root._()->parent = NULL; // its holder is destroyed on return
+	return root;
 }
 
 
